@@ -229,6 +229,8 @@ def check(case, ctx):
         cP = B.pt(c)
         before = snapshot_args([cP])
         o = guard("Sphere", lambda: G.Sphere(cP, r, n1, n2))
+        if not isinstance(o, G.ConvexPolyhedron):
+            raise Fail("Sphere does not return a ConvexPolyhedron", {"got": type(o).__name__}, facts)
         if snapshot_args([cP]) != before:
             raise Fail("Sphere modifies its centre argument", {}, facts)
         cf = X.fl(c)
@@ -285,6 +287,8 @@ def check(case, ctx):
         P, V1, V2 = B.pt(p), B.vec(v1), B.vec(v2)
         before = snapshot_args([P, V1, V2])
         o = guard("Parallelogram", lambda: G.Parallelogram(P, V1, V2))
+        if not isinstance(o, G.ConvexPolygon):
+            raise Fail("Parallelogram does not return a ConvexPolygon", {"got": type(o).__name__}, facts)
         if snapshot_args([P, V1, V2]) != before:
             raise Fail("Parallelogram modifies its arguments", {}, facts)
         exp = ("G", [X.fl(p), X.fl(X.add(p, v1)), X.fl(X.add(X.add(p, v1), v2)), X.fl(X.add(p, v2))])
@@ -304,6 +308,8 @@ def check(case, ctx):
         P, V1, V2, V3 = B.pt(p), B.vec(v1), B.vec(v2), B.vec(v3)
         before = snapshot_args([P, V1, V2, V3])
         o = guard("Parallelepiped", lambda: G.Parallelepiped(P, V1, V2, V3))
+        if not isinstance(o, G.ConvexPolyhedron):
+            raise Fail("Parallelepiped does not return a ConvexPolyhedron", {"got": type(o).__name__}, facts)
         if snapshot_args([P, V1, V2, V3]) != before:
             raise Fail("Parallelepiped modifies its arguments", {}, facts)
         V, E, Fc = len(o.point_set), len(o.segment_set), len(o.convex_polygons)
